@@ -28,6 +28,7 @@ type replayCase struct {
 	Expect   string        `json:"expect"` // pass | fail | panic
 	Label    string        `json:"label"`
 	Note     string        `json:"note,omitempty"`
+	Obs      []string      `json:"obs,omitempty"`
 	Known    []string      `json:"known"` // finding ids with status known
 }
 type replayFile struct {
@@ -38,6 +39,8 @@ type replayOutcome struct {
 	Result string // pass | fail | panic | assume | error
 	Label  string
 	Msg    string
+	Obs    []string
+	Covers string
 }
 
 func inputsOf(vars []varRec, m Model) []replayInput {
@@ -132,36 +135,39 @@ func (p *Program) runNative(rel string, cases []replayCase, scratch string) ([]r
 	for i := range outs {
 		outs[i].Result = "error"
 	}
+	obs := map[int][]string{}
 	for _, line := range strings.Split(string(out), "\n") {
 		line = strings.TrimSpace(line)
+		if strings.HasPrefix(line, "VP-OBS ") {
+			parts := strings.SplitN(strings.TrimPrefix(line, "VP-OBS "), " ", 2)
+			var idx int
+			fmt.Sscanf(parts[0], "%d", &idx)
+			var l []string
+			if len(parts) > 1 {
+				json.Unmarshal([]byte(parts[1]), &l)
+			}
+			obs[idx] = l
+			continue
+		}
 		if !strings.HasPrefix(line, "VP-CASE ") {
 			continue
 		}
+		parts := strings.SplitN(strings.TrimPrefix(line, "VP-CASE "), " ", 3)
 		var idx int
-		var rest string
-		parts := strings.SplitN(strings.TrimPrefix(line, "VP-CASE "), " ", 2)
 		fmt.Sscanf(parts[0], "%d", &idx)
-		if len(parts) > 1 {
-			rest = parts[1]
-		}
-		if idx < 0 || idx >= len(outs) {
+		if idx < 0 || idx >= len(outs) || len(parts) < 2 {
 			continue
 		}
-		o := replayOutcome{}
-		for _, kv := range strings.SplitN(rest, " ", 3) {
+		o := replayOutcome{Result: strings.TrimPrefix(parts[1], "result="), Obs: obs[idx]}
+		if len(parts) > 2 {
 			switch {
-			case strings.HasPrefix(kv, "result="):
-				o.Result = strings.TrimPrefix(kv, "result=")
-			case strings.HasPrefix(kv, "label="):
-				o.Label = strings.TrimPrefix(kv, "label=")
+			case strings.HasPrefix(parts[2], "label="):
+				o.Label = strings.TrimPrefix(parts[2], "label=")
+			case strings.HasPrefix(parts[2], "msg="):
+				o.Msg = strings.TrimPrefix(parts[2], "msg=")
+			case strings.HasPrefix(parts[2], "covers="):
+				o.Covers = strings.TrimPrefix(parts[2], "covers=")
 			}
-		}
-		if i := strings.Index(rest, "label="); i >= 0 {
-			o.Label = strings.TrimSpace(rest[i+6:])
-		}
-		if i := strings.Index(rest, "msg="); i >= 0 {
-			o.Msg = strings.TrimSpace(rest[i+4:])
-			o.Label = ""
 		}
 		outs[idx] = o
 	}
